@@ -5,7 +5,7 @@ from __future__ import annotations
 import ast
 
 from ..core import AnalysisError, Check, norm, strip_docstring, walk_no_nested
-from ..blocks import run_blocks, subset_atom
+from ..blocks import partition_summary, run_blocks, subset_atom
 from ..interp import Sym, SymInterp
 from ..variants import Variant
 
@@ -113,19 +113,16 @@ class C13(Check):
         else:
             self.violated("N1", MOD, CC, "initial-conditions-from-pass", ic or cc, "initial conditions are not read from the evaluation pass for every variable",
                           witness="a variable with an initial assignment starts from the assignment object / a variable is missing from y0")
-        for nm, cont, attr, excl in (("base_parameter_values", "self._parameters", "value", True), ("base_variable_values", "self._variables", "initial_value", True)):
+        parts13 = partition_summary(cc)
+        for nm, cont, attr in (("base_parameter_values", "_parameters", "value"), ("base_variable_values", "_variables", "initial_value")):
             s = a.get(nm, [None])[0]
-            t = norm(s.value) if s is not None else ""
-            ok = s is not None and f"for k, v in {cont}.items()" in t and f"if not isinstance((" in t and f":= v.{attr}), InitialAssignment)" in t
-            if ok:
-                self.holds("N1", MOD, CC, f"plain-{nm}", s, f"{nm}: entries of {cont} whose {attr} is not an InitialAssignment")
+            if parts13.get(nm) == {(cont, attr, False)}:
+                self.holds("N1", MOD, CC, f"plain-{nm}", s or cc, f"{nm}: entries of self.{cont} whose {attr} is not an InitialAssignment")
             else:
-                self.violated("N1", MOD, CC, f"plain-{nm}", s or cc, f"{nm} is not 'all entries of {cont} that are not initial assignments'")
+                self.violated("N1", MOD, CC, f"plain-{nm}", s or cc, f"{nm} is not 'all entries of self.{cont} that are not initial assignments' ({sorted(parts13.get(nm, ()))})")
         s = a.get("initial_assignments", [None])[0]
-        t = norm(s.value) if s is not None else ""
-        both = all(f"for k, v in self.{c}.items() if isinstance((init := v.{at}), InitialAssignment)" in t for c, at in (("_variables", "initial_value"), ("_parameters", "value")))
-        if both:
-            self.holds("N1", MOD, CC, "assignments-of-both-kinds", s, "initial assignments of variables and of parameters are collected")
+        if parts13.get("initial_assignments") == {("_variables", "initial_value", True), ("_parameters", "value", True)}:
+            self.holds("N1", MOD, CC, "assignments-of-both-kinds", s or cc, "initial assignments of variables and of parameters are collected")
         else:
             self.violated("N1", MOD, CC, "assignments-of-both-kinds", s or cc, "initial assignments of variables and parameters are not both collected for sorting/evaluation",
                           witness="a parameter defined by an initial assignment is never computed")
@@ -160,7 +157,7 @@ class C13(Check):
                 self.violated("N2", MOD, CC, "assignments-static", lp, "assignment-defined values are not static: they would be recomputed from the current state",
                               witness="k = InitialAssignment(f(x)) changes with x during a simulation")
         s = a.get("all_parameter_names", [None])[0]
-        if s is not None and norm(s.value) in ("set(parameter_names)", "set(self._parameters)") and norm(a["parameter_names"][0].value) == "set(self._parameters)":
+        if s is not None and (norm(s.value) == "set(self._parameters)" or (norm(s.value) == "set(parameter_names)" and norm(a.get("parameter_names", [s])[0].value) == "set(self._parameters)")):
             self.holds("N2", MOD, CC, "closure-starts-at-parameters", s, "closure initialised with the parameter names (plain and assignment-defined)")
         else:
             self.violated("N2", MOD, CC, "closure-starts-at-parameters", s or cc, "the parameter closure does not start as the set of parameter names")
